@@ -24,7 +24,8 @@ ASSUMPTIONS = [
     'serial 60 (the fictitious 1900-02-29) is not judged',
     '30/360 bases compared only where neither day of month is 29-31 nor the '
     'last day of February; basis 1 to 1e-3 only for pairs inside one '
-    'non-leap year or spanning whole years',
+    'non-leap year (actual/actual conventions differ elsewhere, also on '
+    'whole-year spans)',
     'DATEDIF M/Y = complete months/years by calendar arithmetic',
 ]
 FLOORS = {'serial_field_calls': 100000, 'date_constructor_calls': 2000,
@@ -113,7 +114,8 @@ class Runner:
         from xlcalculator.xlfunctions import xl
         self.F = xl.FUNCTIONS
 
-    def check(self, fname, args, want, counter, nt, tol=None):
+    def check(self, fname, args, want, counter, nt, tol=None, quirk=None):
+        """quirk = (kf id, value that mechanism would produce)"""
         ctx = self.ctx
         got = monitors.call_outcome(self.F[fname], *args)
         ctx.event(counter)
@@ -144,7 +146,10 @@ class Runner:
                      f'{want}', {'function': fname,
                                  'args': [repr(a) for a in args],
                                  'observed': got, 'reference': str(want)},
-                     kf=None, monitor='calendar-reference',
+                     kf=(quirk[0] if quirk and got[0] == 'value' and
+                         got[1][0] == 'num' and
+                         abs(got[1][1] - quirk[1]) <= 1e-12 else None),
+                     monitor='calendar-reference',
                      group=f'{fname}:{nt[1:] if nt else ""}:{got[0]}:'
                            f'{got[1][0] if got[0] == "value" else got[1][:12]}')
         return got
@@ -312,7 +317,8 @@ def run(ctx):
             (2019, 1, 31), (2019, 2, 28), (2019, 3, 31), (2020, 1, 31),
             (2020, 2, 29), (2020, 3, 1), (2020, 12, 31), (2021, 1, 1),
             (2021, 6, 15), (2021, 6, 16), (2022, 6, 15), (2024, 2, 29),
-            (2025, 2, 28), (2019, 6, 15), (2019, 11, 15))]))
+            (2025, 2, 28), (2019, 6, 15), (2019, 11, 15), (2024, 2, 28),
+            (1976, 2, 28))]))
     pairs = [(a, b) for a in pool for b in pool]
     mine = [p for i, p in enumerate(pairs) if i % ctx.nshards == ctx.shard]
     forms, fmeta = [], []
@@ -351,18 +357,24 @@ def run(ctx):
         if plain(lo) and plain(hi):
             d360 = (hi.year - lo.year) * 360 + (hi.month - lo.month) * 30 + \
                 (hi.day - lo.day)
+            # quirk model of KF-C18-06: 28 February of a LEAP year (not the
+            # month's last day) is treated as the end of February (day 30)
+            quirk = None
+            if any(d.month == 2 and d.day == 28 and is_leap(d.year)
+                   for d in (lo, hi)):
+                def q(d):
+                    return 30 if (d.month == 2 and d.day == 28) else d.day
+                qd = (hi.year - lo.year) * 360 + (hi.month - lo.month) * 30 \
+                    + (q(hi) - q(lo))
+                quirk = ('KF-C18-06', qd / 360)
             for basis in (0, 4):
                 R.check('YEARFRAC', (a, b, basis), d360 / 360, 'pair_calls',
-                        ('YEARFRAC', basis, a <= b), tol=1e-12)
+                        ('YEARFRAC', basis, a <= b), tol=1e-12, quirk=quirk)
             R.check('YEARFRAC', (a, b), d360 / 360, 'pair_calls',
-                    ('YEARFRAC', 'default', a <= b), tol=1e-12)
+                    ('YEARFRAC', 'default', a <= b), tol=1e-12, quirk=quirk)
         if lo.year == hi.year and not is_leap(lo.year):
             R.check('YEARFRAC', (a, b, 1), days / 365, 'pair_calls',
                     ('YEARFRAC', 1, 'same-common-year'), tol=1e-3)
-        elif (lo.month, lo.day) == (hi.month, hi.day) and \
-                (lo.month, lo.day) != (2, 29):
-            R.check('YEARFRAC', (a, b, 1), hi.year - lo.year, 'pair_calls',
-                    ('YEARFRAC', 1, 'whole-years'), tol=1e-3)
     if forms:
         outs = subject.eval_batch(forms)
         for (name, a, b, want), text, got in zip(fmeta, forms, outs):
